@@ -12,7 +12,7 @@ from ural.utils import pathsplit, urlsplit, urlunsplit, safe_urlsplit, SplitResu
 from ural.patterns import DOMAIN_TEMPLATE
 
 TELEGRAM_MESSAGE_ID_RE = re.compile(r"^\d+$")
-TELEGRAM_DOMAINS_RE = re.compile(r"(?:telegram\.(?:org|me)|t\.me)$", re.I)
+TELEGRAM_DOMAINS_RE = re.compile(r"(?:^|\.)(?:telegram\.(?:org|me)|t\.me)$", re.I)
 TELEGRAM_URL_RE = re.compile(
     DOMAIN_TEMPLATE % r"(?:[^.]+\.)*(?:telegram\.(?:org|me)|t\.me)", re.I
 )
@@ -40,10 +40,16 @@ def is_telegram_url(url):
         bool: Whether given url is from Telegram.
 
     """
-    if isinstance(url, SplitResult):
-        return bool(re.search(TELEGRAM_DOMAINS_RE, url.hostname))
+    # NOTE: only the hostname decides, whatever the form the url is given in
+    try:
+        hostname = safe_urlsplit(url).hostname
+    except ValueError:
+        return False
 
-    return bool(re.match(TELEGRAM_URL_RE, url))
+    if not hostname:
+        return False
+
+    return bool(re.search(TELEGRAM_DOMAINS_RE, hostname))
 
 
 def convert_telegram_url_to_public(url):
